@@ -13,37 +13,6 @@ import (
 
 // ---------------------------------------------------------------- C16
 
-// key domain shared with coq/Model/Pruner.v
-type K struct {
-	Kind string // int str null missing
-	I    int64
-	S    string
-}
-
-func (k K) Zson() string {
-	switch k.Kind {
-	case "int":
-		return fmt.Sprint(k.I)
-	case "str":
-		return fmt.Sprintf("%q", k.S)
-	case "null":
-		return "null"
-	}
-	return ""
-}
-
-func (k K) Coq() string {
-	switch k.Kind {
-	case "int":
-		return fmt.Sprintf("(KInt (%d))", k.I)
-	case "str":
-		return fmt.Sprintf("(KStr (hex \"%x\"))", k.S)
-	case "null":
-		return "KNull"
-	}
-	return "KMissing"
-}
-
 // record text for a value whose key is k and whose other field j is jv ("" = absent)
 func recZson(k K, jv string) string {
 	var f []string
